@@ -14,6 +14,7 @@ Decided (structure of spifconf_shell_expand and the variable store):
       insertion uses (strcmp), so lookup and insertion agree on the order
   V4  every indexed store into the result buffer is below its size (GHOSTPOS over the output index; also with DEBUG=0)
   V7  the escape table: every backslash-letter the code turns into a constant yields the control character of that name
+  V8  ${NAME} / $(NAME): the closing bracket that ended the name scan is consumed, not handed back to the main loop as text
   B1  CAP over the builtin_* functions: every write into their buffers (the %exec command line, ...) is bounded
 Not decided: the value of the expansion (escape table, quoting, %put/%get semantics)."""
 import re
@@ -40,7 +41,7 @@ def run(tier="quick"):
                             "bounded copies, effect set, ordering agreement of the variable store")
     for rid, txt in (("N1", "input cursor never passes the terminator"), ("V1", "every iteration writes position j or retracts j"),
                      ("V2", "bounded copies: destination newbuff + j, size max - j"), ("V3", "result terminated at j"), ("V4", "every indexed store into the result buffer is inside it"),
-                     ("V5", "effects within the declared set"), ("B1", "the built-ins' buffer writes are bounded (CAP)"), ("V7", "escape letters map to the control characters they name"), ("V6", "lookup early exits use the insertion's ordering function")):
+                     ("V5", "effects within the declared set"), ("B1", "the built-ins' buffer writes are bounded (CAP)"), ("V7", "escape letters map to the control characters they name"), ("V8", "a bracketed reference consumes its closing bracket"), ("V6", "lookup early exits use the insertion's ordering function")):
         chk.rule(rid, txt)
     prog = facts.extract(only=["conf.c"])
     u = prog.units["conf.c"]
@@ -367,6 +368,71 @@ def run(tier="quick"):
                    detail="%s turns backslash-%s into character %d; the control character that letter names is %d" % (fsw.name, chr(lv), cv, ESC_REF[lv]),
                    proof="\\%s -> %d" % (chr(lv), cv))
     chk.count("escape_table_entries", nesc, floor=6)
+    # ---- V8 a bracketed reference consumes its closing bracket: where an arm selected by an opening bracket ('{' or '(' after
+    # the '$') scans up to the matching closer, the byte that ended the scan - the closer - is not the byte the main loop
+    # processes next.  Offset dataflow: the cursor's distance from the closer (0 on the scan's exit edge `byte == closer`,
+    # moved by every ++ / -- / += k) must not be 0 where the main loop's condition reads the next byte.
+    from ..confrules import case_label_of
+    OPEN = {ord("}"): ord("{"), ord(")"): ord("("), ord("]"): ord("["), ord(">"): ord("<")}
+    scans = {}
+    for lp in walk(main.get("body") or {}):
+        if lp.get("k") not in ("for", "while") or lp.get("cond") is None or lp is main:
+            continue
+        for cj in walk(lp["cond"]):
+            if cj.get("k") == "bin" and cj.get("op") == "!=":
+                for a_, b_ in ((cj["ch"][0], cj["ch"][1]), (cj["ch"][1], cj["ch"][0])):
+                    kv = X.const_val(b_)
+                    if kv in OPEN and nulcursor.byte_expr(a_, cursors) == (pb, 0):
+                        lab = case_label_of(f, lp)
+                        if lab is not None and lab.get("k") == "case" and X.const_val(lab["val"]) == OPEN[kv]:
+                            scans[cj["i"]] = (lp, kv)
+
+    def v8_transfer(st, n, blk):
+        if not st:
+            return st
+        k = n.get("k")
+        t = X.strip(n["ch"][0]) if k in ("un", "assign") and n.get("ch") else None
+        if t is not None and t.get("k") == "ref" and t.get("d") == pb:
+            if k == "un" and n.get("op") in ("++", "--"):
+                d_ = 1 if n["op"] == "++" else -1
+                return frozenset(("co", x[1] + d_, x[2]) for x in st if abs(x[1] + d_) <= 4)
+            if k == "assign" and n.get("op") in ("+=", "-=") and X.const_val(n["ch"][1]) is not None:
+                d_ = X.const_val(n["ch"][1]) * (1 if n["op"] == "+=" else -1)
+                return frozenset(("co", x[1] + d_, x[2]) for x in st if abs(x[1] + d_) <= 4)
+            if k == "assign":
+                return frozenset()
+        return st
+
+    def v8_refine(st, cond, truth, blk):
+        c = X.strip(cond)
+        while c is not None and c.get("k") == "bin" and c.get("op") in ("&&", "||"):
+            c = X.strip(c["ch"][1])         # the block of a logical operator decides its last operand
+        if c is not None and c.get("i") in scans and truth is False:
+            return frozenset({("co", 0, c["i"])})
+        if st and c is not None and c.get("k") == "bin" and c.get("op") in ("==", "!=") and truth in (True, False):
+            # a test of the byte under the cursor while the cursor is known to stand on the closer: one outcome is impossible
+            for a_, b_ in ((c["ch"][0], c["ch"][1]), (c["ch"][1], c["ch"][0])):
+                k2 = X.const_val(b_)
+                if k2 is not None and nulcursor.byte_expr(a_, cursors) == (pb, 0):
+                    says_equal = (c["op"] == "==") == truth
+                    return frozenset(x for x in st if x[1] != 0 or ((scans[x[2]][1] == k2) == says_equal))
+        return st
+    reread = []
+
+    def v8_visit(st, n, blk):
+        if st and any(y is n for y in walk(main.get("cond") or {})) and nulcursor.byte_expr(n, cursors) == (pb, 0):
+            for x in st:
+                if x[1] == 0:
+                    reread.append((n, x[2]))
+    flow.forward(cfg, frozenset(), v8_transfer, refine=v8_refine, join=lambda a, b: a | b, visit=v8_visit)
+    for cid, (lp, kv) in sorted(scans.items()):
+        bad = [r for r in reread if r[1] == cid]
+        chk.ob("V8", f.name, "closer-consumed:%s" % chr(kv), not bad, loc=f.loc(lp),
+               detail="%s: after a reference opened by '%s' was scanned up to its '%s', the main loop resumes AT that '%s': the closing "
+                      "bracket is copied to the result as ordinary text, so the text after the reference is not preserved "
+                      "(\"${HOME}/x\" expands to \"/home/u}/x\")" % (f.name, chr(OPEN[kv]), chr(kv), chr(kv)),
+               proof="on every path from the scan's exit on the closer to the main loop's next read the cursor has moved past it")
+    chk.count("bracketed_reference_scans", len(scans), floor=2)
     # ---- B1 the built-ins the expansion calls keep every write inside their own buffers (the command line built by %exec,
     # the number printed by %random, the directory listing): CAP with the string/file tools that store through a pointer
     # argument interpreted as well
